@@ -434,3 +434,38 @@ def r16_10_weekday_navigation_delegates_to_namesake(ctx: Ctx) -> RuleResult:
         else:
             rr.fail(f.qual, f"{f.name} is built from {moving or calls}: it must delegate to LocalDate.{base} only (a detour through the opposite direction differs when the value already falls on the requested weekday)", ctx.loc(f))
     return rr
+
+
+@rule("C16")
+def r16_11_week_rules_ask_the_calculator(ctx: Ctx) -> RuleResult:
+    """A week-year can be one less than the calendar's first year or one more than its last (R16.9), so the week-year rule takes
+    year lengths and year starts from the calendar's CALCULATOR, which answers one year beyond.  The public CalendarSystem
+    queries check their year argument against [min_year, max_year]: called with a week-year they raise for the dates of the
+    first / last days of every calendar.  No method of the week-year rule passes a year to a range-checked CalendarSystem query."""
+    rr = RuleResult("R16.11", "the week-year rule never passes a year to a range-checked public CalendarSystem query (week-years run one year beyond the calendar's years)", min_instances=3)
+    M = ctx.M
+    cs = M.cls("CalendarSystem", required=True)
+    checked = {}
+    for g in cs.all_defs:
+        if isinstance(g.node, ast.Lambda) or g.name.startswith("_"):
+            continue
+        for n in own_nodes(g.node):
+            if isinstance(n, ast.Call) and unparse(n.func).endswith("_check_argument_range") and len(n.args) >= 4 and isinstance(n.args[1], ast.Name) and "year" in n.args[1].id \
+                    and "min_year" in unparse(n.args[2]) and "max_year" in unparse(n.args[3]):
+                checked[g.name] = n.args[1].id
+    if len(checked) < 3:
+        raise AnalysisError(f"CalendarSystem: only {len(checked)} range-checked year queries found (expected get_days_in_year, get_days_in_month, is_leap_year ...)")
+    c = M.cls("_SimpleWeekYearRule", required=True)
+    for f in sorted(c.all_defs, key=lambda g: g.qual):
+        if isinstance(f.node, ast.Lambda):
+            continue
+        rr.inst()
+        bad = None
+        for n in own_nodes(f.node):
+            if isinstance(n, ast.Call) and isinstance(n.func, ast.Attribute) and n.func.attr in checked and "calendar" in unparse(n.func.value) and "_year_month_day_calculator" not in unparse(n.func.value):
+                bad = n
+        if bad is None:
+            rr.ok({"fn": f.qual})
+        else:
+            rr.fail(f.qual, f"`{unparse(bad)[:90]}`: CalendarSystem.{bad.func.attr} rejects years outside [min_year, max_year], but the week-year asked about can be min_year - 1 or max_year + 1 (the last days of year 9999 belong to week-year 10000 under most rules): ask the calculator", ctx.loc(f, bad))
+    return rr
